@@ -77,6 +77,14 @@ def timing_cell(P, A):
         st = STAMPS[started[i]] if started[i] is not None else None
         en = STAMPS[ended[i]] if ended[i] is not None else None
         tb_ = timing(variants[i], sd_d[i], tt_d[i], mt_d[i], st, en)
+        if tb_ is not None and P.get('payload_order') == 'reversed':
+            # the order of the payload's children is free: StoryEnded, StoryStarted, MediaTime, TextTime, StoryDuration
+            pl_ = tb_.find('mosPayload')
+            kids_ = list(pl_)
+            for k_ in kids_:
+                pl_.remove(k_)
+            for k_ in reversed(kids_):
+                pl_.append(k_)
         if P.get('meta_last'):
             # the layout a roStorySend leaves behind: an item with its own payload first, the story's block last
             own = B.item('it%d' % i, note_text='n', extra=B.decoys('zz', 'yy'))
